@@ -268,7 +268,7 @@ FinishCycle(S, d) ==
                           THEN [@[i] EXCEPT !.value = @ + c.vadd,
                                             !.quality = IF c.qset > 0 THEN 1 + (S2.part[i].seq % c.qset) ELSE @]
                           ELSE @[i]]] IN
-            Record(S3, "produced_part", d)
+            Record([S3 EXCEPT !.dev[d].off = @ + c.foff], "produced_part", d)
       [] OTHER ->   \* handler
             SchedulePass([S EXCEPT !.dev[d].out = S.dev[d].inp, !.dev[d].inp = 0], d)
 
@@ -410,7 +410,7 @@ ReleaseIfIdle(S, d) == IF S.dev[d].down \/ S.dev[d].inp = 0 THEN ReleaseHeld(S, 
 
 (* PartProcessor._shutdown *)
 Shutdown(S, d, isFailure) ==
-    IF S.dev[d].down THEN S
+    IF S.dev[d].down THEN (IF isFailure THEN CancelEvents(S, d) ELSE S)
     ELSE LET S1 == [S EXCEPT !.dev[d].down = TRUE, !.dev[d].wsince = None] IN
          IF isFailure THEN CancelEvents(S1, d) ELSE PauseEvents(S1, d)
 
@@ -419,7 +419,7 @@ Fail(S, d) ==
     LET p == S.dev[d].inp
         S1 == ReleaseHeld([S EXCEPT !.dev[d].inp = 0], d)
         S2 == Record(S1, "device_failure", d)
-        S3 == IF p # 0 /\ ~S.dev[d].down THEN [S2 EXCEPT !.lost = Append(@, <<d, p>>)] ELSE S2 IN
+        S3 == IF p # 0 THEN [S2 EXCEPT !.lost = Append(@, <<d, p>>)] ELSE S2 IN
     Shutdown(S3, d, TRUE)
 
 (* PartProcessor.restore_functionality *)
@@ -492,6 +492,7 @@ Initialise(S) ==
                          go(IF Kind(d) = "source" THEN ScheduleFinish(T1, d, cfg.devs[d].cyc) ELSE T1, d + 1)
         RECURSIVE sc(_, _)
         sc(T, i) == IF i > Len(cfg.script) THEN T
-                    ELSE sc(SchedArg(T, cfg.script[i].t, -2, "script", cfg.script[i].prio, i), i + 1)
+                    ELSE sc(IF cfg.script[i].between THEN T
+                            ELSE SchedArg(T, cfg.script[i].t, -2, "script", cfg.script[i].prio, i), i + 1)
     IN sc(go([S EXCEPT !.inited = TRUE], 1), 1)
 =============================================================================
